@@ -179,6 +179,11 @@ def gen(tier: str, seed: int) -> list[Case]:
                     f'def same_{sib}(cfg: Settings) -> Settings:\n    """{dd([("cfg", "Settings")], "Settings")}    """\n    ...\n\n\n'
                     f'def doc_only_{sib}(cfg):\n    """{dd([("cfg", "Settings")], "Settings")}    """\n    ...\n'
                 )
+            # a module the docstring library cannot load (byte order mark) with hints only, and a plain directory
+            # (no __init__.py) with the same: whatever was documented before them, their types are their hints
+            hint_only = "def shrink(p0: int, p1: int) -> int:\n    ...\n\n\nclass HintOnly:\n    def scale(self, p0: int, p2: int) -> int:\n        ...\n"
+            files["src/pk/zz_hint_bom.py"] = {"hex": (b"\xef\xbb\xbf" + hint_only.encode()).hex()}
+            files["src/pk/zz_plain_dir/hint_plain.py"] = hint_only
             for pref in ("code", "docstring"):
                 for warn in ("warn", "ignore"):
                     # the option parsers are case-insensitive: spell the values differently from run to run
@@ -285,6 +290,15 @@ def make_judge(chk: Check):
             if r["hint"] and r["doc"] and r["hint"] != r["doc"]:
                 exp_result_warn.add(fid)
             chk.case_ok(f"{style}:{where}")
+        # the hint-only modules: every parameter and result is Int under both preferences
+        for rel, m in ss.files.items():
+            if m.py_module.endswith(("zz_hint_bom", "hint_plain")):
+                for d in m.walk():
+                    if d.kind == "fun":
+                        got_types = [p.type.render() if p.type else None for p in d.params or []] + [r.type.render() if r.type else None for r in d.results]
+                        if any(t != "Int" for t in got_types):
+                            viols.append(Viol("wrong-type-source", f"hint-only-module:{style}:{pref}", {"file": rel, "function": d.path(), "stub": got_types}))
+                        chk.case_ok(f"{style}:hint-only-module:{pref}")
         # the sibling modules: their own class of that name, no import of a sibling's class
         for rel, m in ss.files.items():
             if m.py_module.endswith("_s"):
